@@ -13,6 +13,8 @@ import (
 	"time"
 
 	"github.com/DemoHn/Zn/pkg/runtime"
+	libFile "github.com/DemoHn/Zn/stdlib/file"
+	libJson "github.com/DemoHn/Zn/stdlib/json"
 )
 
 type znProg struct {
@@ -37,7 +39,7 @@ func TestZnvcRun(t *testing.T) {
 					done <- "panic " + strings.ReplaceAll(fmt.Sprint(r), "\n", " ")
 				}
 			}()
-			in := NewInterpreter("znrun")
+			in := NewInterpreter("znrun").SetExternalLibs([]*runtime.Library{libJson.Export(), libFile.Export()})
 			v, err := in.LoadScript([]rune(p.Source)).Execute(runtime.ElementMap{})
 			if err != nil {
 				done <- "error " + strings.ReplaceAll(err.Error(), "\n", " | ")
